@@ -22,7 +22,7 @@ ASSUMPTIONS = ["tolerance = the format's resolution + a few ulp, so rounding and
                "non-canonical fields such as 1:60 are accepted; exponent notation and non-finite values are not demanded",
                "a leading '+' is not demanded of the parser (only what the library itself renders with the + flag)"]
 QUICK_SHARDS = 2
-REQUIRED_EVENTS = ["renderings", "validator_checks", "parse_checks", "grid_points", "device_layer_renderings", "device_layer_histories", "client_number_texts_stored"]
+REQUIRED_EVENTS = ["renderings", "validator_checks", "parse_checks", "grid_points", "device_layer_renderings", "device_layer_histories", "client_number_texts_stored", "python_numbers_written_in_process"]
 
 SEXA = [3, 5, 6, 8, 9]
 
@@ -267,7 +267,7 @@ def run(ctx):
 # ---- through the device layer: what a Number element puts into defNumberVector / setNumberVector --------------------------
 
 DEVICE_FORMATS = ["%.3m", "%.5m", "%.6m", "%9.6m", "%.8m", "%.9m", "%f", "%8.3f", "%.0f", "%d", "%+.2f", "%010.4f"]
-STORES = ["assign", "client-write", "reset_value", "read-handler-refresh", "assign-other-element"]
+STORES = ["assign", "client-write", "in-process-client-write", "reset_value", "read-handler-refresh", "assign-other-element"]
 RENDERS = ["to_set_message", "to_def_message", "getProperties", "state-change", "assign-other-element"]
 
 
@@ -304,6 +304,8 @@ def device_layer(ctx, i, steps):
     router.register_client(rec)
     vec = D.vector_of(drv, "g", "num")
     elem = [D.element_in(vec, f"e{k}") for k in range(4)]
+    guide = D.build(dict(spec, name="GUIDE"))(router=router)
+    snoop = guide.snoop_device("DEV")
     history = []
 
     def judge(children, how):
@@ -342,6 +344,19 @@ def device_layer(ctx, i, steps):
             if stored is None or isinstance(stored, bool) or not abs(stored - denoted) <= 1e-9 * max(1.0, abs(denoted)):
                 ctx.violate(f"element-stores-other-value-than-the-text-denotes:{fmt_class(fmts[k])}",
                             f"element N{k} (format {fmts[k]!r}) was sent {text!r} (= {denoted!r}) and holds {stored!r}",
+                            {"mode": "device", "i": i, "steps": steps}, {"history": history[-8:]})
+                return
+        elif store == "in-process-client-write":
+            # a snooping driver's client hands the router a message OBJECT whose oneNumber carries a Python number, not text
+            pv = rng.choice([0, 0.0, -0.0, 1, -1, 0.5, v, int(v)])
+            cel = snoop.get_device("DEV").get_vector("NUM").get_element(f"N{k}")
+            cel.value = pv
+            snoop.get_device("DEV").get_vector("NUM").submit()
+            stored = elem[k]._value
+            ctx.count("python_numbers_written_in_process")
+            if stored is None or isinstance(stored, bool) or not abs(stored - pv) <= 1e-9 * max(1.0, abs(pv)):
+                ctx.violate(f"element-stores-other-value-than-the-number-sent:{'zero' if pv == 0 else 'nonzero'}",
+                            f"element N{k} (format {fmts[k]!r}) was sent the Python number {pv!r} by an in-process client and holds {stored!r}",
                             {"mode": "device", "i": i, "steps": steps}, {"history": history[-8:]})
                 return
         elif store == "reset_value":
